@@ -43,7 +43,7 @@ def encKind : MKind → String
 def encTriggers (env : Env) (defs : List VarDef) : Json :=
   Json.mkObj [("trigSelf", trigSelf env.snake defs), ("trigKwargs", trigKwargs env.snake defs),
     ("trigMerge", trigMerge env.snake defs), ("trigQueryClobber", trigQueryClobber env.snake defs),
-    ("trigShadow", trigShadow env defs), ("trigSerializeNullable", trigSerializeNullable env defs),
+    ("trigShadow", trigShadow env defs), ("trigMangled", trigMangled env.snake defs), ("trigSerializeNullable", trigSerializeNullable env defs),
     ("trigSerializeList", trigSerializeList env defs)]
 
 def encPyErr : PyCall.PyErr → Json
